@@ -30,6 +30,9 @@ TProgress == /\ E.e = "progress" /\ phase = "up"
              /\ J("C16", "epoch-does-not-advance-in-cycle", E.incs >= 3, [cycle |-> cyc, incs |-> E.incs])
              /\ J("C16", "nothing-reclaimed-while-running", E.session_open \/ E.retired = 0 \/ E.reclaimed >= 1, [cycle |-> cyc, retired |-> E.retired])
              /\ UNCHANGED <<base, cap, phase, cyc>>
+TSlots == /\ E.e = "slots" /\ phase = "up"
+          /\ J("C16", "session-slots-not-free-after-init", E.free_slots = cap, [cycle |-> cyc, free |-> E.free_slots])
+          /\ UNCHANGED <<base, cap, phase, cyc>>
 TDestroy == /\ E.e = "destroy_done" /\ phase = "up"
             /\ J("C16", "destroy-does-not-leave-an-empty-usable-system",
                  E.list_status = "WARN_NOT_EXIST" /\ E.listed = 0 /\ E.create = "OK" /\ E.put = "OK" /\ E.get = "OK" /\ E.value_ok, [cycle |-> cyc])
@@ -39,7 +42,7 @@ TFinDone == /\ E.e = "fin_done" /\ phase = "stopping" /\ phase' = "down"
             /\ J("C11", "memory-left-after-fin", E.bytes <= base.bytes /\ E.blocks <= base.blocks, [cycle |-> cyc, bytes |-> E.bytes, base |-> base.bytes, blocks |-> E.blocks, baseblocks |-> base.blocks])
             /\ J("C16", "fin-did-not-join-the-background-threads", E.exits = E.starts, [cycle |-> cyc])
             /\ UNCHANGED <<base, cap, cyc>>
-TNext == l <= Len(Log) /\ l' = l + 1 /\ (TBaseline \/ TInitBegin \/ TInitDone \/ TThread \/ TProgress \/ TDestroy \/ TFinBegin \/ TFinDone)
+TNext == l <= Len(Log) /\ l' = l + 1 /\ (TBaseline \/ TInitBegin \/ TInitDone \/ TThread \/ TProgress \/ TSlots \/ TDestroy \/ TFinBegin \/ TFinDone)
 TSpec == TInit /\ [][TNext]_vars
 Accepted == TLCGet("stats").diameter - 1 = Len(Log)
 ====
